@@ -32,6 +32,8 @@ func (en *Engine) runScan(name string) (bool, string) {
 		return en.scanPerFileRewriter()
 	case "rw-no-package-state":
 		return en.scanRewriterPackageState()
+	case "rw-no-map-iteration":
+		return en.scanNoMapIteration()
 	case "seq-tail-calls":
 		return en.scanTailCalls("seq")
 	case "seq-no-driver-reentry":
@@ -207,8 +209,10 @@ func (en *Engine) scanTailCalls(pkg string) (bool, string) {
 			for i, s := range list {
 				last := i == len(list)-1
 				if !last {
-					if _, isRet := list[i+1].(*ast.ReturnStmt); isRet && i+1 == len(list)-1 && len(list[i+1].(*ast.ReturnStmt).Results) == 0 {
-						last = true
+					if ret, isRet := list[i+1].(*ast.ReturnStmt); isRet && len(ret.Results) == 0 {
+						// followed by a bare return: nothing runs after the callee in this activation
+						checkStmt(s, true)
+						continue
 					}
 				}
 				checkStmt(s, tail && last)
@@ -289,14 +293,59 @@ func (en *Engine) scanDelayElision() (bool, string) {
 	if u == nil {
 		return false, "optimizer.optimizeDelayCall not found"
 	}
-	pure := map[string]bool{"cstDelay": true, "cstCombine": true, "cstFor": true, "cstWhile": true, "cstLoop": true,
-		"cstReturn": true, "cstNormal": true, "cstBreak": true, "cstContinue": true}
+	info := u.Pkg.TypesInfo
+	pure := map[string]bool{"Delay": true, "Combine": true, "For": true, "While": true, "Loop": true,
+		"Return": true, "Normal": true, "Break": true, "Continue": true}
+	constStr := func(e ast.Expr) (string, bool) {
+		if tv, ok := info.Types[e]; ok && tv.Value != nil {
+			return strings.Trim(tv.Value.ExactString(), "\""), true
+		}
+		return "", false
+	}
+	calleeName := func(c *ast.CallExpr) string {
+		f := c.Fun
+		for {
+			switch y := f.(type) {
+			case *ast.IndexExpr:
+				f = y.X
+				continue
+			case *ast.IndexListExpr:
+				f = y.X
+				continue
+			case *ast.SelectorExpr:
+				return y.Sel.Name
+			case *ast.Ident:
+				return y.Name
+			}
+			return ""
+		}
+	}
+	// the initialiser of a local identifier
+	initOf := func(id *ast.Ident) ast.Expr {
+		if v, ok := info.Uses[id].(*types.Var); ok {
+			if e := en.prog.InitBind[v]; e != nil {
+				return e
+			}
+		}
+		return nil
+	}
+	isConstTrue := func(e ast.Expr) bool {
+		if id, ok := e.(*ast.Ident); ok {
+			e = initOf(id)
+		}
+		lit, _ := e.(*ast.FuncLit)
+		if lit == nil || len(lit.Body.List) != 1 {
+			return false
+		}
+		ret, _ := lit.Body.List[0].(*ast.ReturnStmt)
+		return ret != nil && len(ret.Results) == 1 && exprText(en, ret.Results[0]) == "true"
+	}
 	var bad []string
-	var whitelistVar, bindVar string
-	nCalleeOfUses := 0
+	var whitelistVar, bindVar *types.Var
+	nWhitelists := 0
 	ast.Inspect(u.Body, func(n ast.Node) bool {
 		as, ok := n.(*ast.AssignStmt)
-		if !ok || len(as.Lhs) != 1 || len(as.Rhs) != 1 {
+		if !ok || len(as.Lhs) != 1 || len(as.Rhs) != 1 || as.Tok != token.DEFINE {
 			return true
 		}
 		lhs, _ := as.Lhs[0].(*ast.Ident)
@@ -304,55 +353,102 @@ func (en *Engine) scanDelayElision() (bool, string) {
 		if lhs == nil || call == nil {
 			return true
 		}
-		if id, ok := call.Fun.(*ast.Ident); ok && id.Name == "calleeOf" && lhs.Name != "calleeOf" {
-			nCalleeOfUses++
-			whitelistVar = lhs.Name
+		lv, _ := info.Defs[lhs].(*types.Var)
+		// the whitelist: <var> := calleeOf(<constant names>...)
+		if calleeName(call) == "calleeOf" {
+			nWhitelists++
+			whitelistVar = lv
 			for _, a := range call.Args {
-				aid, ok := a.(*ast.Ident)
-				if !ok || !pure[aid.Name] {
+				name, ok := constStr(a)
+				if !ok || !pure[name] {
 					bad = append(bad, "Delay-elision whitelist contains "+exprText(en, a)+", which is not a constructor proved effect-free with thunk-only arguments")
 				}
 			}
+			return true
 		}
-		// noEffectBindCall := AndEx[...](m, FuncCallee(m, bindFnObj, cstBind), &ast.CallExpr{Args: {MkPattern[BasicLitPattern](m, constTrue), Wildcard}})
-		if strings.Contains(exprText(en, call), "cstBind") && strings.Contains(exprText(en, call.Fun), "AndEx") {
-			bindVar = lhs.Name
-			txt := strings.Join(strings.Fields(exprText(en, call)), " ")
-			if !strings.Contains(txt, "matcher.MkPattern[BasicLitPattern](m, constTrue)") {
-				bad = append(bad, "the Bind case of the Delay-elision rule no longer restricts Bind's first argument to a basic literal: "+trunc(txt, 300))
+		// the Bind case: a pattern built around FuncCallee(.., cstBind) and a call pattern whose first argument pattern is
+		// matcher.MkPattern[BasicLitPattern](m, <constant-true predicate>)
+		mentionsBind := false
+		ast.Inspect(call, func(m ast.Node) bool {
+			if c2, ok := m.(*ast.CallExpr); ok && calleeName(c2) == "FuncCallee" && len(c2.Args) == 3 {
+				if name, ok := constStr(c2.Args[2]); ok && name == "Bind" {
+					mentionsBind = true
+				}
 			}
+			return true
+		})
+		if !mentionsBind {
+			return true
+		}
+		bindVar = lv
+		okFirst := false
+		ast.Inspect(call, func(m ast.Node) bool {
+			cl, ok := m.(*ast.CompositeLit)
+			if !ok || exprText(en, cl.Type) != "ast.CallExpr" {
+				return true
+			}
+			for _, el := range cl.Elts {
+				kv, ok := el.(*ast.KeyValueExpr)
+				if !ok || exprText(en, kv.Key) != "Args" {
+					continue
+				}
+				args, _ := kv.Value.(*ast.CompositeLit)
+				if args == nil || len(args.Elts) != 2 {
+					continue
+				}
+				first, _ := args.Elts[0].(*ast.CallExpr)
+				if first == nil || calleeName(first) != "MkPattern" || len(first.Args) != 2 {
+					continue
+				}
+				if ix, ok := first.Fun.(*ast.IndexExpr); ok && exprText(en, ix.Index) == "BasicLitPattern" && isConstTrue(first.Args[1]) {
+					okFirst = true
+				}
+			}
+			return true
+		})
+		if !okFirst {
+			bad = append(bad, "the Bind case of the Delay-elision rule no longer restricts Bind's first argument to a basic literal (MkPattern[BasicLitPattern] with the constant-true predicate): "+trunc(strings.Join(strings.Fields(exprText(en, call)), " "), 300))
 		}
 		return true
 	})
-	if nCalleeOfUses != 1 {
-		bad = append(bad, fmt.Sprintf("expected exactly one whitelist built with calleeOf(...), found %d", nCalleeOfUses))
+	if nWhitelists != 1 {
+		bad = append(bad, fmt.Sprintf("expected exactly one whitelist built with calleeOf(...), found %d", nWhitelists))
 	}
-	// constTrue must be the constant-true predicate
-	okTrue := false
+	// Bind(m, "return", Or(m, <whitelist>, <literal-Bind>)) and the callback replaces by ctx.Binds["return"]
+	okOr, okReplace := false, false
 	ast.Inspect(u.Body, func(n ast.Node) bool {
-		as, ok := n.(*ast.AssignStmt)
-		if ok && len(as.Lhs) == 1 {
-			if id, _ := as.Lhs[0].(*ast.Ident); id != nil && id.Name == "constTrue" {
-				if lit, _ := as.Rhs[0].(*ast.FuncLit); lit != nil && len(lit.Body.List) == 1 {
-					if ret, _ := lit.Body.List[0].(*ast.ReturnStmt); ret != nil && len(ret.Results) == 1 && exprText(en, ret.Results[0]) == "true" {
-						okTrue = true
+		c, ok := n.(*ast.CallExpr)
+		if !ok {
+			return true
+		}
+		if calleeName(c) == "Bind" && len(c.Args) == 3 {
+			if name, ok := constStr(c.Args[1]); ok && name == "return" {
+				if or, ok := c.Args[2].(*ast.CallExpr); ok && calleeName(or) == "Or" && len(or.Args) == 3 {
+					got := map[*types.Var]bool{}
+					for _, a := range or.Args[1:] {
+						if id, ok := a.(*ast.Ident); ok {
+							if v, ok := info.Uses[id].(*types.Var); ok {
+								got[v] = true
+							}
+						}
 					}
+					okOr = whitelistVar != nil && bindVar != nil && got[whitelistVar] && got[bindVar]
+				}
+			}
+		}
+		if calleeName(c) == "Replace" && len(c.Args) == 1 {
+			if ix, ok := c.Args[0].(*ast.IndexExpr); ok {
+				if name, ok := constStr(ix.Index); ok && name == "return" && strings.HasSuffix(exprText(en, ix.X), ".Binds") {
+					okReplace = true
 				}
 			}
 		}
 		return true
 	})
-	if !okTrue {
-		bad = append(bad, "constTrue is not the constant-true predicate")
-	}
-	// the alternatives under the bound "return" are exactly the whitelist and the literal-Bind pattern
-	body := strings.Join(strings.Fields(exprText(en, u.Body)), " ")
-	want := "Bind(m, \"return\", Or(m, " + whitelistVar + ", " + bindVar + ", ), )"
-	want2 := "Bind(m, \"return\", Or(m, " + whitelistVar + ", " + bindVar + "))"
-	if !strings.Contains(body, want) && !strings.Contains(body, want2) {
+	if !okOr {
 		bad = append(bad, "the Delay-elision pattern is not Or(whitelist, literal-Bind) under the bound \"return\"")
 	}
-	if !strings.Contains(body, "c.Replace(ctx.Binds[\"return\"])") {
+	if !okReplace {
 		bad = append(bad, "the Delay-elision callback does not replace the match by the bound \"return\" expression")
 	}
 	if len(bad) > 0 {
@@ -374,8 +470,7 @@ func (en *Engine) scanEtaGuard() (bool, string) {
 		ast.Inspect(n, func(m ast.Node) bool {
 			switch y := m.(type) {
 			case *ast.IfStmt:
-				cond := strings.Join(strings.Fields(exprText(en, y.Cond)), " ")
-				g := guarded || (strings.Contains(cond, "matched(ctx, params, args)") && strings.Contains(cond, "stableCallee(ctx,") && !strings.Contains(cond, "||"))
+				g := guarded || etaGuardCond(y.Cond)
 				walk(y.Body, g)
 				if y.Else != nil {
 					walk(y.Else, guarded)
@@ -387,7 +482,7 @@ func (en *Engine) scanEtaGuard() (bool, string) {
 					if !guarded {
 						bad = append(bad, "c.Replace at "+en.prog.pos(y)+" is not guarded by matched(ctx, params, args) && stableCallee(ctx, ...)")
 					}
-					if exprText(en, y.Args[0]) != "ctx.Binds[\"fun\"]" {
+					if !strings.HasSuffix(exprText(en, y.Args[0]), ".Binds[\"fun\"]") {
 						bad = append(bad, "the literal is replaced by "+exprText(en, y.Args[0])+", not by the bound callee")
 					}
 				}
@@ -403,6 +498,37 @@ func (en *Engine) scanEtaGuard() (bool, string) {
 		return false, strings.Join(bad, "; ")
 	}
 	return true, ""
+}
+
+// etaGuardCond: the condition is a conjunction (no ||) that calls both matched(...) and stableCallee(...).
+func etaGuardCond(e ast.Expr) bool {
+	var conj []ast.Expr
+	var flat func(e ast.Expr) bool
+	flat = func(e ast.Expr) bool {
+		switch y := ast.Unparen(e).(type) {
+		case *ast.BinaryExpr:
+			if y.Op == token.LAND {
+				return flat(y.X) && flat(y.Y)
+			}
+			if y.Op == token.LOR {
+				return false
+			}
+		}
+		conj = append(conj, e)
+		return true
+	}
+	if !flat(e) {
+		return false
+	}
+	has := map[string]bool{}
+	for _, c := range conj {
+		if call, ok := ast.Unparen(c).(*ast.CallExpr); ok {
+			if id, ok := call.Fun.(*ast.Ident); ok {
+				has[id.Name] = true
+			}
+		}
+	}
+	return has["matched"] && has["stableCallee"]
 }
 
 // scanSymCnt (C15): the unique-name counter is written only by gensym.
@@ -527,6 +653,32 @@ func (en *Engine) scanRewriterPackageState() (bool, string) {
 						if v, ok := u.Pkg.TypesInfo.Uses[id].(*types.Var); ok && v.Parent() == v.Pkg().Scope() {
 							bad = append(bad, id.Name+" assigned in "+u.Name)
 						}
+					}
+				}
+			}
+			return true
+		})
+	}
+	if len(bad) > 0 {
+		return false, strings.Join(bad, "; ")
+	}
+	return true, ""
+}
+
+
+// scanNoMapIteration (C15): Go randomises map iteration order; nothing in the compiler may iterate a map
+// (output order would differ between runs of the same sources).
+func (en *Engine) scanNoMapIteration() (bool, string) {
+	var bad []string
+	for _, u := range en.prog.Units {
+		if u.Pkg.Name != "rewriter" || u.Lit != nil {
+			continue
+		}
+		ast.Inspect(u.Body, func(n ast.Node) bool {
+			if rs, ok := n.(*ast.RangeStmt); ok {
+				if t := u.Pkg.TypesInfo.TypeOf(rs.X); t != nil {
+					if _, isMap := t.Underlying().(*types.Map); isMap {
+						bad = append(bad, "range over a map in "+u.Name+" at "+en.prog.pos(rs))
 					}
 				}
 			}
